@@ -890,6 +890,9 @@ func init() {
 				return
 			}
 			w.disk("64:"+r64Names[re], "none", "-", fmt.Sprint(err == nil))
+			if we != 0 {
+				scribble(data)
+			}
 			if err != nil {
 				w.fail("C18", "decode-error", "valid 64-bit stream rejected", fmt.Sprintf("%s of %s output (%d bytes): %v", r64Names[re], w64Names[we], len(data), err))
 				if st.A[3] == 1 && st.S[0] != st.S[1] {
